@@ -2533,13 +2533,13 @@ _cdata_getslicearg(CDataObject *cd, PySliceObject *slice, Py_ssize_t bounds[])
     Py_ssize_t start, stop;
     CTypeDescrObject *ct;
 
-    start = PyLong_AsSsize_t(slice->start);
+    start = PyNumber_AsSsize_t(slice->start, PyExc_IndexError);
     if (start == -1 && PyErr_Occurred()) {
         if (slice->start == Py_None)
             PyErr_SetString(PyExc_IndexError, "slice start must be specified");
         return NULL;
     }
-    stop = PyLong_AsSsize_t(slice->stop);
+    stop = PyNumber_AsSsize_t(slice->stop, PyExc_IndexError);
     if (stop == -1 && PyErr_Occurred()) {
         if (slice->stop == Py_None)
             PyErr_SetString(PyExc_IndexError, "slice stop must be specified");
